@@ -6,20 +6,21 @@
 EXTENDS ColCatalog, Json, Sequences
 CONSTANT TraceFile
 Trace == ndJsonDeserialize(TraceFile)
-VARIABLES l, viol, cid, want, wantidx, dead
-tvars == <<cols, idxs, l, viol, cid, want, wantidx, dead>>
+VARIABLES l, viol, cid, want, wantidx, dead, dia
+tvars == <<cols, idxs, l, viol, cid, want, wantidx, dead, dia>>
 Ev == Trace[l]
 Is(e) == l <= Len(Trace) /\ Ev.ev = e /\ l' = l + 1
 K(s) == <<s[1], s[2], s[3], s[4], s[5], s[6]>>
 KSet(s) == { K(s[i]) : i \in DOMAIN s }
-KI(s) == <<s[1], s[2], s[3]>>
+KI(s) == <<s[1], s[2], [i \in DOMAIN s[3] |-> <<s[3][i][1], s[3][i][2]>>], s[4]>>
 KISet(s) == { KI(s[i]) : i \in DOMAIN s }
-TInit == cols = {} /\ idxs = {} /\ l = 1 /\ viol = {} /\ cid = 0 /\ want = {} /\ wantidx = {} /\ dead = FALSE
+TInit == cols = {} /\ idxs = {} /\ l = 1 /\ viol = {} /\ cid = 0 /\ want = {} /\ wantidx = {} /\ dead = FALSE /\ dia = ""
 Reset == /\ Is("reset") /\ cols' = KSet(Ev.start) /\ want' = KSet(Ev.want) /\ idxs' = KISet(Ev.startidx) /\ wantidx' = KISet(Ev.wantidx)
-         /\ cid' = Ev.c /\ dead' = FALSE /\ UNCHANGED viol
+         /\ cid' = Ev.c /\ dead' = FALSE /\ dia' = Ev.dialect /\ UNCHANGED viol
 Flag(name) == viol' = IF Cardinality(viol) >= 400 THEN viol ELSE viol \cup {<<cid, name, l>>}
 Act == \/ Ev.op = "add" /\ AddColumn(K(Ev.col))
-       \/ Ev.op = "drop" /\ DropColumn(Ev.col[1])
+       \/ Ev.op = "drop" /\ dia = "mysql" /\ DropColumnMy(Ev.col[1])
+       \/ Ev.op = "drop" /\ dia # "mysql" /\ DropColumnPG(Ev.col[1])
        \/ Ev.op = "redefine" /\ Redefine(K(Ev.col))
        \/ Ev.op = "type" /\ SetType(Ev.col[1], Ev.col[2])
        \/ Ev.op = "setnn" /\ SetNotNull(Ev.col[1])
@@ -30,23 +31,25 @@ Act == \/ Ev.op = "add" /\ AddColumn(K(Ev.col))
        \/ Ev.op = "comment" /\ SetComment(Ev.col[1], Ev.col[6])
        \/ Ev.op = "addidx" /\ AddIndex(KI(Ev.idx))
        \/ Ev.op = "dropidx" /\ DropIndex(Ev.idx[1])
+       \/ Ev.op = "addconst" /\ AddConstraint(KI(Ev.idx))
+       \/ Ev.op = "dropconst" /\ DropConstraint(Ev.idx[1])
 Clause == /\ Is("clause")
           /\ IF dead THEN UNCHANGED <<vars, viol, dead>>
              ELSE IF Ev.op = "unknown" THEN Flag("UninterpretedClause") /\ dead' = TRUE /\ UNCHANGED vars
              ELSE IF ENABLED Act THEN Act /\ UNCHANGED <<viol, dead>>
              ELSE Flag("ClauseRejected") /\ dead' = TRUE /\ UNCHANGED vars
-          /\ UNCHANGED <<cid, want, wantidx>>
+          /\ UNCHANGED <<cid, want, wantidx, dia>>
 StmtEnd == /\ Is("stmtend")
-           /\ IF dead \/ (WellFormed /\ NamesUnique /\ IdxNamesUnique) THEN UNCHANGED <<viol, dead>> ELSE Flag("IllFormedColumn") /\ dead' = TRUE
-           /\ UNCHANGED <<vars, cid, want, wantidx>>
+           /\ IF dead \/ (WellFormed /\ NamesUnique /\ IdxNamesUnique /\ IdxColumnsExist) THEN UNCHANGED <<viol, dead>> ELSE Flag("IllFormedColumn") /\ dead' = TRUE
+           /\ UNCHANGED <<vars, cid, want, wantidx, dia>>
 \* the differ or the planner refused: fine iff refusal was owed (a generation expression added or changed; plan not reversible)
 Reject == /\ Is("reject")
           /\ IF Ev.owed \/ dead THEN UNCHANGED viol ELSE Flag("PlannerError")
-          /\ dead' = TRUE /\ UNCHANGED <<vars, cid, want, wantidx>>
+          /\ dead' = TRUE /\ UNCHANGED <<vars, cid, want, wantidx, dia>>
 End == /\ Is("end")
        /\ IF dead \/ (cols = want /\ idxs = wantidx) THEN UNCHANGED viol
           ELSE IF cols # want THEN Flag("WrongEndColumns") ELSE Flag("WrongEndIndexes")
-       /\ UNCHANGED <<vars, cid, want, wantidx, dead>>
+       /\ UNCHANGED <<vars, cid, want, wantidx, dead, dia>>
 TStep == Reset \/ Clause \/ StmtEnd \/ Reject \/ End
 TNext == /\ TStep
          /\ (l' = Len(Trace) + 1) => PrintT(<<"VIOLS", ToJson(viol')>>)
